@@ -410,9 +410,12 @@ def run(ctx):
     for i in range(ctx.budget(10, 60)):
         box = bool(ctx.rng.random() < 0.5)
         check_layers(ctx, random_tabular(ctx.rng, box=box, masks=not box), "tabular", i)
+        ctx.gc()
     for i in range(ctx.budget(5, 25)):
         cls = classic[i % len(classic)]
         check_layers(ctx, cls(), cls.__name__, 1000 + i)
+        ctx.gc(4)
     for i in range(ctx.budget(6, 40)):
         check_timelimit(ctx, i)
+        ctx.gc()
     check_adapters(ctx)
